@@ -2,6 +2,7 @@
     contents of the version it was created as, loaded from or last persisted as.  Lemma file. *)
 From Coq Require Import List NArith ZArith Lia Bool Arith.
 From Mast Require Import Prim Key Tree KeyOrder Codec Store Diff World Erase Build Spec Canon Links Level Inv Persist Hist Reload Atomic WorldInv Clean.
+From Mast Require Import ReloadB.
 Import ListNotations.
 
 Opaque name_of blake2b_256 b64url crc64 uint_layer_fuel.
@@ -107,7 +108,7 @@ Proof.
   - (* OLoad *)
     specialize (HR r) as Hr. destruct (aget (w_roots w) r) as [rt|] eqn:Er; destruct (aget aro r) as [x0|] eqn:Ea0; try contradiction; [|exact Hb].
     cbn [snd] in Hs. rewrite Ea0 in Hs. destruct Hs as [<- <-]. destruct Hr as [Hg _].
-    destruct (load_good _ _ _ _ _ Hg) as (tt & [fm m] & E & _). rewrite E. cbn [fst snd].
+    destruct (load_good _ _ _ _ _ _ Hg) as (tt & [fm m] & E & _). rewrite E. cbn [fst snd].
     intros t' tr x Et Ea Hd; cbn [fst snd] in Ea, Et. unfold set_tree in Et. cbn [w_trees] in Et. destruct (N.eq_dec t t') as [->|Hne].
     + rewrite aget_aset_same in Ea. inversion Ea; subst x. rewrite bget_set_same. reflexivity.
     + rewrite aget_aset_other in Et by exact Hne; rewrite aget_aset_other in Ea by exact Hne. rewrite bget_set_other by exact Hne. exact (Hb t' tr x Et Ea Hd).
